@@ -124,6 +124,12 @@ def cases(ctx):
         for dbl in (14, 15):
             for opn in (99, 100):
                 yield {"k": "script", "hex": (bytes([50]) + bytes(range(50)) + b"\x76\x7e" * dbl + bytes([opn]) + b"\x51\x68\x6b\x6c\x6c").hex(), "tag": "huge_predicate", "compact": True}
+    if S % 16 in (3, 11):
+        # conditionals whose TAKEN branch has 10^5 .. 4*10^6 elements (log-spaced): the first few steps only - a branch of any size is
+        # entered like a small one, and if the library refuses it, the stacks are still those of the last returned state
+        for ne in ((100000, 1000000, 2100000) if S % 16 == 3 else (300000, 4000000)):
+            for opn, pred in ((99, 0x51), (100, 0x00)):
+                yield {"k": "huge_branch", "n": ne, "opener": opn, "pred": pred, "tag": "huge_branch"}
     if S % 16 == 0:
         yield {"k": "bits", "bits": [{"push": "ab" * 100000}, {"op": 118}, {"op": 126}, {"op": 130}], "tag": "constructed"}
         yield {"k": "bits", "bits": [{"if": 99, "pass": [], "fail": None}], "tag": "constructed"}
@@ -231,7 +237,33 @@ def request_of(case):
     return req, nb
 
 
+def judge_huge_branch(ctx, case, build):
+    ctx.hit("program")
+    ctx.hit("huge_branch")
+    ctx.nontrivial()
+    raw = bytes([0x52, case["pred"], case["opener"]]) + b"\x61" * case["n"] + b"\x68"
+    r = ctx.call({"op": "interp", "script": raw.hex(), "max_steps": 4, "mode": "step", "compact": True, "guard": 16 << 30}, build=build, watchdog=900)
+    ctx.ev()
+    if "ok" not in r or "step" not in r["ok"]:
+        ctx.note("huge_branch request: no reply (%s)" % [q for q in r if q != "ok"][:1])
+        return
+    s = r["ok"]["step"]
+    if s["end"] == "panic":
+        ctx.viol("stepping panics at conditional with a very large taken branch: %s" % C09.norm(s["detail"]["msg"]), {"n": case["n"]})
+    elif s["end"] == "err":
+        if s["post"] != s["last_ok"]:
+            ctx.viol("after an error the stacks differ from the last returned state (conditional with a very large taken branch)", {"n": case["n"], "post": str(s["post"])[:200], "last_ok": str(s["last_ok"])[:200]})
+        ctx.viol("a conditional whose taken branch is very large fails although every element of it is a no-op", {"n": case["n"], "detail": str(s["detail"])[:200]})
+    elif s["end"] == "bound":
+        ctx.hit("huge_branch_entered")
+        # OP_2 <pred> IF NOP NOP ...: after the first five steps the main stack holds the single element 02
+        if s["n_ok"] < 5:
+            ctx.viol("stepping into a conditional with a very large taken branch returns fewer states than elements executed", {"n": case["n"], "n_ok": s["n_ok"]})
+
+
 def judge(ctx, case, build=None):
+    if case["k"] == "huge_branch":
+        return judge_huge_branch(ctx, case, build or ctx.build)
     req, nb = request_of(case)
     build = build or ctx.build
     r = ctx.call(req, build=build, watchdog=900 if case.get("compact") else None)
@@ -390,7 +422,7 @@ def extra_stages(tier, seed, res):
     per = {}
     try:
         for case in cases(ctx):
-            if case["tag"] in ("tx_bound", "tx_bound_conditional", "huge_stack", "huge_predicate", "long", "ctor_with_index") or case.get("compact"):
+            if case["tag"] in ("tx_bound", "tx_bound_conditional", "huge_stack", "huge_predicate", "huge_branch", "long", "ctor_with_index") or case.get("compact"):
                 continue  # EC operations / megabyte-sized elements cost seconds to minutes each under Miri
             if len(str(case)) > 1500:
                 continue
